@@ -200,6 +200,7 @@ type c19dMRT struct {
 	// updates sent while the UPDATE writer is active, per peer address, in order
 	expect map[string][]c19dSent
 	active bool
+	asSeen map[string][]uint32 // earlier AS numbers of a neighbour address (re-configured during the history)
 }
 
 func (h *c19dMRT) viol(key, what string, extra map[string]any) {
@@ -230,6 +231,139 @@ func (h *c19dMRT) traffic(count int) {
 		}
 		if h.r.IntN(3) == 0 {
 			synctest.Wait()
+		}
+	}
+	synctest.Wait()
+}
+
+// identityEvent changes who is behind a neighbour address (or removes the neighbour) between two
+// dumps of the same table dump writer. It returns false if the scenario cannot go on.
+func (h *c19dMRT) identityEvent() bool {
+	r, n := h.r, h.n
+	var ups []int
+	for i, p := range h.peers {
+		if p.up {
+			ups = append(ups, i)
+		}
+	}
+	if len(ups) < 2 {
+		return true
+	}
+	i := ups[r.IntN(len(ups))]
+	p := h.peers[i]
+	kind := []string{"new-router-id", "new-as", "withdraw-all", "delete-peer", "new-router-id", "new-as"}[r.IntN(6)]
+	if kind == "new-as" && p.conf.Kind == simIBGP {
+		kind = "new-router-id"
+	}
+	h.rec.Count("mrt_identity_event_"+kind, 1)
+	h.shape = append(h.shape, "ev:"+kind)
+	h.logf("identity event %s on %s", kind, p.conf.Addr)
+	synctest.Wait()
+	switch kind {
+	case "new-router-id":
+		p.sp.close()
+		p.up = false
+		p.held = map[bgp.Family]map[c19dNLRI]bool{}
+		synctest.Wait()
+		p.conf.ID = fmt.Sprintf("9.%d.%d.%d", 1+r.IntN(200), 1+i, 1+r.IntN(200))
+		p.sp.conf.ID = p.conf.ID
+		if err := p.bringUp(n, true); err != nil {
+			h.rec.Inconclusive(err.Error())
+			return false
+		}
+		h.trafficFrom(p, 2+r.IntN(4))
+	case "new-as":
+		// the neighbour is re-configured with another AS: a new session, a new identity behind the address
+		if err := n.s.DeletePeer(context.Background(), &api.DeletePeerRequest{Address: p.conf.Addr}); err != nil {
+			h.t.Fatalf("DeletePeer: %v", err)
+		}
+		p.up = false
+		synctest.Wait()
+		p.sp.close()
+		synctest.Wait()
+		c := p.conf
+		if c.NoAS4 || r.IntN(2) == 0 {
+			c.AS = uint32(65200 + i + 10*r.IntN(5))
+		} else {
+			c.AS = uint32(4200000300 + i + 10*r.IntN(5))
+		}
+		if c.AS == p.conf.AS {
+			c.AS++
+		}
+		c.ID = fmt.Sprintf("8.%d.%d.%d", 1+r.IntN(200), 1+i, 1+r.IntN(200))
+		np, err := c19dAddPeer(n, c)
+		if err != nil {
+			h.t.Fatalf("AddPeer %v: %v", c, err)
+		}
+		h.asSeen[c.Addr] = append(h.asSeen[c.Addr], p.conf.AS)
+		h.peers[i] = np
+		if err := np.bringUp(n, true); err != nil {
+			h.rec.Inconclusive(err.Error())
+			return false
+		}
+		h.trafficFrom(np, 2+r.IntN(4))
+	case "withdraw-all":
+		for _, f := range p.conf.families() {
+			var wd []c19dNLRI
+			for k := range p.held[f] {
+				wd = append(wd, k)
+			}
+			sort.Slice(wd, func(a, b int) bool {
+				if wd[a].Pfx != wd[b].Pfx {
+					return wd[a].Pfx.String() < wd[b].Pfx.String()
+				}
+				return wd[a].ID < wd[b].ID
+			})
+			if len(wd) == 0 {
+				continue
+			}
+			var m *bgp.BGPMessage
+			if f == bgp.RF_IPv4_UC {
+				m = bgp.NewBGPUpdateMessage(c19dPathNLRIs(wd), nil, nil)
+			} else {
+				mu, _ := bgp.NewPathAttributeMpUnreachNLRI(f, c19dPathNLRIs(wd))
+				m = bgp.NewBGPUpdateMessage(nil, []bgp.PathAttributeInterface{mu}, nil)
+			}
+			raw, err := m.Serialize(p.marshalOpt())
+			if err != nil {
+				h.t.Fatalf("serialize withdraw-all: %v", err)
+			}
+			if p.sp.sendRaw(raw) != nil {
+				p.up = false
+				break
+			}
+			h.gen.seq++
+			s := c19dSent{Raw: raw, Class: "withdraw", Seq: h.gen.seq}
+			p.sent = append(p.sent, s)
+			if h.active {
+				h.expect[p.conf.Addr] = append(h.expect[p.conf.Addr], s)
+			}
+			h.logf("send #%d %s withdraw-all %s", s.Seq, p.conf.Addr, hex.EncodeToString(raw))
+			p.held[f] = map[c19dNLRI]bool{}
+		}
+	case "delete-peer":
+		if err := n.s.DeletePeer(context.Background(), &api.DeletePeerRequest{Address: p.conf.Addr}); err != nil {
+			h.t.Fatalf("DeletePeer: %v", err)
+		}
+		p.up = false
+		synctest.Wait()
+		p.sp.close()
+	}
+	synctest.Wait()
+	return true
+}
+
+// trafficFrom sends count UPDATEs from one peer (announcements mostly: the peer has routes afterwards).
+func (h *c19dMRT) trafficFrom(p *c19dPeer, count int) {
+	for i := 0; i < count && p.up; i++ {
+		s := h.gen.sendNext(p)
+		if s == nil {
+			continue
+		}
+		h.logf("send #%d %s %s %s", s.Seq, p.conf.Addr, s.Class, hex.EncodeToString(s.Raw))
+		h.rec.Count("mrt_updates_sent_"+s.Class, 1)
+		if h.active {
+			h.expect[p.conf.Addr] = append(h.expect[p.conf.Addr], *s)
 		}
 	}
 	synctest.Wait()
@@ -355,6 +489,50 @@ func (h *c19dMRT) checkDump(d []c19dMRTRec, apiPeers map[string]c19dAPIPeer, api
 			}
 		}
 		return
+	}
+
+	// the identity the table holds for the source of every route (what the session that delivered it announced)
+	srcIdent := map[string]string{}
+	for _, p := range apiPaths {
+		if !p.IsLocal {
+			srcIdent[p.Peer] = fmt.Sprintf("AS %d BGP id %s", p.PeerAS, p.PeerID)
+		}
+	}
+	for i, pe := range pit.Peers {
+		addr := idxPeer[i]
+		if want, ok := srcIdent[addr]; ok {
+			h.rec.Count("mrt_peer_entries_compared_with_route_source", 1)
+			if got := fmt.Sprintf("AS %d BGP id %s", pe.AS, pe.BgpId); got != want {
+				h.viol("c19d:mrt:peer-index-table:stale-identity", fmt.Sprintf("entry for %s says %s, the routes dumped for it come from %s", addr, got, want), map[string]any{"phase": phase, "table": pit.String()})
+			}
+		}
+	}
+	// an entry that is the source of no dumped route is admissible only when the table is the complete
+	// neighbour list (RFC 6396 does not say which); a partial list with left-over entries describes neither
+	hasLocal := false
+	for _, p := range apiPaths {
+		if p.IsLocal {
+			hasLocal = true
+		}
+	}
+	var idle []string
+	for i := range pit.Peers {
+		a := idxPeer[i]
+		if _, ok := srcIdent[a]; !ok && !(a == "local" && hasLocal) {
+			idle = append(idle, a)
+		}
+	}
+	if len(idle) > 0 {
+		complete := true
+		for a := range apiPeers {
+			if !seen[a] {
+				complete = false
+			}
+		}
+		if !complete {
+			h.viol("c19d:mrt:peer-index-table:entry-without-routes", fmt.Sprintf("entries %v are the source of no route of this dump, while other neighbours without routes are not listed", idle),
+				map[string]any{"phase": phase, "table": pit.String(), "api_peers": fmt.Sprint(apiPeers)})
+		}
 	}
 
 	// routes: per (family, prefix) the multiset of (source, path id, attributes, originated time)
@@ -498,7 +676,13 @@ func (h *c19dMRT) checkUpdates(data []byte) {
 		}
 		h.rec.Count("mrt_bgp4mp_headers_compared", 1)
 		wit := map[string]any{"record": i, "subtype": name, "peer": p.conf.shape(), "body": hex.EncodeToString(rc.Body)}
-		if ref.PeerAS != p.conf.AS {
+		asOK := ref.PeerAS == p.conf.AS
+		for _, a := range h.asSeen[peer] {
+			if ref.PeerAS == a {
+				asOK = true // a record of the neighbour's earlier configuration
+			}
+		}
+		if !asOK {
 			h.viol("c19d:mrt:bgp4mp:peer-as", fmt.Sprintf("record carries peer AS %d, the peer is AS %d", ref.PeerAS, p.conf.AS), wit)
 		}
 		// a 2-octet field cannot hold a 4-octet AS number: AS_TRANS (what the OPEN of that session carried) is admissible there
@@ -600,7 +784,7 @@ func (h *c19dMRT) checkUpdates(data []byte) {
 
 func c19dMRTCase(t *testing.T, rec *vlib.Rec, idx int) {
 	r := vlib.CaseRand("c19d-mrt", idx)
-	h := &c19dMRT{c19dCase: c19dCase{rec: rec, idx: idx}, t: t, r: r, expect: map[string][]c19dSent{}}
+	h := &c19dMRT{c19dCase: c19dCase{rec: rec, idx: idx}, t: t, r: r, expect: map[string][]c19dSent{}, asSeen: map[string][]uint32{}}
 	h.globalAS = 65000
 	if r.IntN(4) == 0 {
 		h.globalAS = 4200000001
@@ -720,6 +904,13 @@ func c19dMRTCase(t *testing.T, rec *vlib.Rec, idx int) {
 					return
 				}
 				h.traffic(1 + r.IntN(4))
+			}
+		}
+		if round >= 1 && r.IntN(3) != 0 {
+			// The same writer has dumped before: now a neighbour changes identity or goes away, and the
+			// next dump must describe the peers and routes of the table as it is then.
+			if !h.identityEvent() {
+				return
 			}
 		}
 		synctest.Wait()
